@@ -305,19 +305,19 @@ func csvCellEquals(cell string, want interface{}) (ok bool, list bool) {
 }
 
 // expectedDelim: the delimiter a reader of the declared format uses.
-func expectedDelim(cfg rag.ExportConfig) byte {
+func expectedDelim(cfg rag.ExportConfig) []byte {
 	if cfg.Format == rag.ExportFormatTSV {
-		return '\t'
+		return []byte{'\t'}
 	}
 	if cfg.CSVDelimiter == 0 {
-		return ','
+		return []byte{','}
 	}
-	return byte(cfg.CSVDelimiter)
+	return []byte(string(cfg.CSVDelimiter)) // the UTF-8 encoding of the rune
 }
 
 // checkCSVWithHeader: `out` was exported with IncludeHeader=true.
 func checkCSVWithHeader(c *hx.Ctx, kind string, kase caseID, out string, chunks []*rag.Chunk, cfg rag.ExportConfig) (records [][]string, ok bool) {
-	records, err := readRFC4180([]byte(out), expectedDelim(cfg))
+	records, err := readRFC4180D([]byte(out), expectedDelim(cfg))
 	if !chk(c, "C14/"+kind+"-wellformed", err == nil, kase, func() string { return fmt.Sprintf("RFC 4180 reader: %v in %q", err, clip(out)) }) {
 		return nil, false
 	}
